@@ -267,11 +267,11 @@ theorem findUnaryOp_spec (t : Table) (repr : Str) (u : Nat) (h : findUnaryOp t r
 section
 variable {K : Type}
 
-/-- the operator has one of the five arithmetic names, and satisfies `P` or is what `find_bin_op`
+/-- the operator has one of the names with a binary rule, and satisfies `P` or is what `find_bin_op`
     returns for some name (`P`: a property of the operators of the operand one wants to carry along,
     e.g. the bounds on priorities) -/
 abbrev PO (t : Table) (P : DBin → Prop) (o : DBin) : Prop :=
-  String.ofList (reprOf t o.idx) ∈ ["+", "-", "*", "/", "^"] ∧ (P o ∨ ∃ repr, findBinOp t repr = .ok o)
+  String.ofList (reprOf t o.idx) ∈ binRuleNames ∧ (P o ∨ ∃ repr, findBinOp t repr = .ok o)
 abbrev PU (t : Table) (u : Nat) : Prop :=
   String.ofList (reprOf t u) ∈ unRuleNames ∧ tblHasUnary t u = true
 abbrev QV (T : List Str) (vs : List Str) : Prop := vs.Nodup ∧ ∀ x ∈ vs, x ∈ T
@@ -339,9 +339,9 @@ theorem s_union (a b a' b' : DeepEx K) (ha : SI t P T a) (hb : SI t P T b)
       exact ⟨reset_op _ _ _ _ _ _ hq a a' ha h1, reset_op _ _ _ _ _ _ hq b b' hb h2,
         resetVars_vars _ a a' h1, resetVars_vars _ b b' h2, hstrict, hq⟩
 
-/-- `operate_bin` with one of the five arithmetic names, structurally -/
+/-- `operate_bin` with one of the names with a binary rule, structurally -/
 theorem s_operateBin (a b r : DeepEx K) (repr : Str)
-    (hname : String.ofList repr ∈ ["+", "-", "*", "/", "^"]) (ha : SI t P T a) (hb : SI t P T b)
+    (hname : String.ofList repr ∈ binRuleNames) (ha : SI t P T a) (hb : SI t P T b)
     (h : a.operateBin I t b repr = .ok r) :
     SI t P T r ∧ r.vars = unionVars a.vars b.vars := by
   unfold DeepEx.operateBin at h
@@ -631,9 +631,31 @@ theorem si_without (f x : DeepEx K) (hf : SI t P T f) (hx : f.withoutLatestUnary
     cases hx
     exact si_un_change t P T nodes ops _ rest vars hf (fun v hv => List.mem_cons_of_mem _ hv)
 
-theorem binRule_si (name : String) (hname : name ∈ ["+", "-", "*", "/", "^"]) (f g pd : ValDer K)
+theorem binRule_si (name : String) (hname : name ∈ binRuleNames) (f g pd : ValDer K)
     (hfv : SI t P T f.val) (hfd : SI t P T f.der) (hgv : SI t P T g.val) (hgd : SI t P T g.der)
     (h : binRule I C t name f g = .ok pd) : SI t P T pd.val ∧ SI t P T pd.der := by
+  have hname' : String.ofList name.toList ∈ binRuleNames := by rw [String.ofList_toList]; exact hname
+  by_cases hcmp : name ∈ [">", "<", "!=", "==", "<=", ">="]
+  · rw [binRule_cmp I C t name hcmp] at h
+    split at h
+    · rename_i v d h1 h2
+      cases h
+      exact ⟨(s_operateBin I t P T _ _ _ _ hname' hfv hgv h1).1,
+        (s_operateBin I t P T _ _ _ _ hname' hfv hgv h2).1⟩
+    · cases h
+    · cases h
+  by_cases hpw : name ∈ ["if", "else"]
+  · rw [binRule_pw I C t name hpw] at h
+    split at h
+    · rename_i v d h1 h2
+      cases h
+      exact ⟨(s_operateBin I t P T _ _ _ _ hname' hfv hgv h1).1,
+        (s_operateBin I t P T _ _ _ _ hname' hfd hgd h2).1⟩
+    · cases h
+    · cases h
+  have hname : name ∈ ["+", "-", "*", "/", "^"] := by
+    simp only [binRuleNames, List.mem_cons, List.not_mem_nil, or_false] at hname hcmp hpw ⊢
+    grind
   simp only [List.mem_cons, List.not_mem_nil, or_false] at hname
   rcases hname with rfl | rfl | rfl | rfl | rfl
   · rw [binRule_add] at h
